@@ -3,6 +3,7 @@
 package c02
 
 import (
+	"math/big"
 	"testing"
 
 	GG "github.com/cloudflare/circl/ecc/bls12381"
@@ -240,6 +241,13 @@ func blsCase[K bls.KeyGroup](g blsGroup, k, mi int) {
 			noteOnce("%s: big-int model could not decode an honest signature", g.name)
 		}
 	}
+	// second spellings of the same coordinates: a 48-octet field element of
+	// the encoding replaced by itself plus p (where that still fits next to
+	// the three flag bits of the first block): names the same point if the
+	// decoder reduces instead of refusing, so it would verify
+	for bi, c := range coordPlusP(sig) {
+		tg.expectReject("coordinate-plus-p", c, "block", bi)
+	}
 	// the uncompressed serialization of the same point is another *valid*
 	// encoding in the format the package follows: observed, not judged
 	if u := ptUncompressed(sig, !g.pkG1); u != nil {
@@ -263,6 +271,9 @@ func blsCase[K bls.KeyGroup](g blsGroup, k, mi int) {
 				tgu.expectReject("uncompressed-y-top-bits", lib.FlipBit(u, half*8+i), "bit", half*8+i)
 			}
 			alterSig(tgu, r, u, altOpts{flips: 64, allFlips: full && lib.Thorough()})
+			for bi, c := range coordPlusP(u) {
+				tgu.expectReject("coordinate-plus-p", c, "block", bi)
+			}
 		}
 	}
 
@@ -639,3 +650,31 @@ func blsAggCase[K bls.KeyGroup](g blsGroup, k int) {
 }
 
 var _ = testing.Short
+
+// coordPlusP returns, for every 48-octet block of a zkcrypto-style point
+// encoding, the encoding with that block's value increased by p, keeping the
+// three flag bits of the first block; blocks where the sum does not fit are
+// skipped.
+func coordPlusP(enc []byte) [][]byte {
+	var out [][]byte
+	for b := 0; b+48 <= len(enc); b += 48 {
+		blk := lib.Clone(enc[b : b+48])
+		flags := byte(0)
+		limit := 384
+		if b == 0 {
+			flags = blk[0] & 0xE0
+			blk[0] &= 0x1F
+			limit = 381
+		}
+		v := new(big.Int).SetBytes(blk)
+		v.Add(v, blsP)
+		if v.BitLen() > limit {
+			continue
+		}
+		c := lib.Clone(enc)
+		v.FillBytes(c[b : b+48])
+		c[b] |= flags
+		out = append(out, c)
+	}
+	return out
+}
